@@ -495,7 +495,7 @@ class C07(Prop):
             "and an independent C++ reference applied to the operand elements that NumPy broadcasting designates. "
             "Exhaustive: every compiled (op x types x form) x fixed broadcast patterns, plus all broadcastable shape pairs "
             "dim 0..3 extents 1..3 for add/less/maximum (+outer_add dim 1..2, where-triples dim 0..2 extents 1..2); random: dim<=4, "
-            "extents<=5, pools with type extremes / specials. non-trivial = operands of different shape, or mixed element types, or a "
+            "extents<=5 (sampled up to 9), pools with type extremes / specials. non-trivial = operands of different shape, or mixed element types, or a "
             "lazy-view operand; distinct = canonical JSON of the case")
     assumptions = [
         "scalar semantics = C++ (usual arithmetic conversions / <cmath>), as implemented by the library's own functor; an independent "
@@ -518,7 +518,7 @@ class C07(Prop):
         return RngCh(zlib.crc32(repr(key).encode()))
 
     def exhaustive(self, tier):
-        npat = {"quick": 2, "thorough": 6}[tier]
+        npat = {"quick": 3, "thorough": 6}[tier]
         for e in _entries():
             kind, op, ts, mask = e["kind"], e["op"], e["types"], e["mask"]
             if kind == "B":
